@@ -169,17 +169,6 @@ Definition show_table_c (t : list named) : string :=
   join "|" (map (fun x => tok_of_bytes (fst x) ++ ">" ++ show_cache (snd x)) (fold_right ins_named [] t)).
 Definition ctable_of (t : dns_table) : list named := map (fun e => (de_name e, cache_of_entry e)) t.
 
-Fixpoint cfind (k : bytes) (t : list named) : option cache :=
-  match t with
-  | [] => None
-  | x :: r => if lab_eqb (fst x) k then Some (snd x) else cfind k r
-  end.
-Fixpoint cput (k : bytes) (c : cache) (t : list named) : list named :=
-  match t with
-  | [] => [(k, c)]
-  | x :: r => if lab_eqb (fst x) k then (k, c) :: r else x :: cput k c r
-  end.
-
 Definition show_ref_msg (x : option ref_msg) : string :=
   match x with None => "none" | Some m => tok_of_bytes (rm_qname m) ++ ">" ++ show_learned (rm_learned m) end.
 
@@ -207,10 +196,11 @@ Definition pdns_step (t : dns_table) (st : list named) (p spare : bytes)
     else match strict with
          | None => (reject_as (is_err r) mobs, ctable_of t')
          | Some m =>
-             let c0 := match cfind (rm_qname m) st with Some c => c | None => cache_empty end in
-             let '(c1, u) := learn_all c0 false (rm_learned m) in
-             if u then ("upd:" ++ tok_of_bytes (rm_qname m) ++ ">" ++ show_cache c1, cput (rm_qname m) c1 st)
-             else ("none", st)
+             let '(ret, st1) := ref_process st m in
+             (match ret with
+              | Some (k, c1) => "upd:" ++ tok_of_bytes k ++ ">" ++ show_cache c1
+              | None => "none"
+              end, st1)
          end in
   let key := "-" in
   (* after a step on which spec and implementation differ the spec table follows the model *)
